@@ -23,6 +23,7 @@ func runC15(r *engine.Run) {
 	r.Rule("NILWIRE", "every pointer decoded from the wire (elements of PersistTrie.Pairs, the five alternatives of PersistNodeBase) is dereferenced only on paths where it tested non-nil (CBOR null decodes to a nil pointer)")
 	r.Rule("NILIFACE", "in the decoder closure no possibly-nil pointer is converted to an interface (a typed nil inside an interface defeats the `== nil` guards of the encoders, which then dereference it)")
 	r.Rule("ORDER-progress", "each recursive call of verifyProof / deserializeTrie is dominated by the bounds test of the cursor and by its increment: the recursion consumes one proof element per call and terminates")
+	r.Rule("COST-linear", "in the self-recursive decoders (verifyProof, deserializeTrie) no structure-recursive method (one that some node kind implements by calling the same method on a sub-node without a dirty-flag memo guard, e.g. shortNode.Weight) is called on the subtree returned by the recursive call: the work per nesting level is constant, so decoding time is linear in the input")
 	r.NotDec = append(r.NotDec, "behaviour of the CBOR and msgp libraries on hostile input (third-party code)")
 	entries := decoderEntries(r)
 	if len(entries) < 8 {
@@ -57,6 +58,7 @@ func runC15(r *engine.Run) {
 		r.Anchor("BOUNDS", fmt.Errorf("unresolved anchor: only %d index/slice sites in the decoder closure", nb))
 	}
 	orderProgress(r)
+	costLinear(r, "COST-linear")
 }
 
 var decoderReach map[*ssa.Function]bool
@@ -903,4 +905,119 @@ func typedNilIn(r *engine.Run, f *ssa.Function) {
 		}
 		r.Fail(rule, o.next(fn(f)+"|typed nil"), r.P.Pos(in.Pos()), "a pointer that is nil on some path is stored into an interface: the value is non-nil as an interface, so the encoder's nil guard passes and it dereferences nil when the accepted node is re-encoded")
 	})
+}
+
+// costLinear: in the self-recursive decoders the work done on the result of a
+// recursive call is constant per level. A method is structure-recursive when
+// some node kind implements it by calling the same method on one of its
+// sub-nodes without a memo guard (a test of the dirty flag that returns the
+// cached result); calling such a method on the result of the recursive call
+// walks the whole decoded chain at every level: decoding becomes quadratic in a
+// nesting depth the input controls ("fails to terminate promptly").
+func costLinear(r *engine.Run, rule string) {
+	// structure-recursive method names among the Node implementations
+	recursive := map[string]string{}
+	for _, g := range funcsOfPkg(r, pkgWMPT) {
+		if g.Signature.Recv() == nil || !strings.HasSuffix(recvNamed(g), "Node") {
+			continue
+		}
+		name := g.Name()
+		engine.Instrs(g, func(in ssa.Instruction) {
+			c, ok := in.(*ssa.Call)
+			if !ok || !c.Call.IsInvoke() || c.Call.Method.Name() != name {
+				return
+			}
+			if nm := namedOf(c.Call.Value.Type()); nm == nil || nm.Obj().Name() != "Node" {
+				return
+			}
+			// memo guard: reached only with the receiver's dirty flag true
+			guarded := false
+			atoms, ok := engine.AtomsOn(g, c.Block())
+			if ok {
+				engine.Instrs(g, func(i2 ssa.Instruction) {
+					if ld, ok := i2.(*ssa.UnOp); ok && ld.Op == token.MUL {
+						if fa, ok := ld.X.(*ssa.FieldAddr); ok && fa.X == ssa.Value(g.Params[0]) && engine.FieldOf(fa).Name() == "dirty" {
+							if t, had := atoms[engine.ValKey(ld)]; had && t {
+								guarded = true
+							}
+						}
+					}
+				})
+			}
+			if !guarded {
+				recursive[name] = fn(g)
+			}
+		})
+	}
+	n := 0
+	for _, spec := range []struct{ recv, name string }{{"", "verifyProof"}, {"WeightedMerkleTrie", "deserializeTrie"}} {
+		f := r.Fn(rule, pkgWMPT, spec.recv, spec.name)
+		if f == nil {
+			continue
+		}
+		// values derived from the result of a self-call
+		derived := map[ssa.Value]bool{}
+		engine.Instrs(f, func(in ssa.Instruction) {
+			if c, ok := in.(*ssa.Call); ok && c.Call.StaticCallee() == f {
+				derived[c] = true
+			}
+		})
+		for changed := true; changed; {
+			changed = false
+			engine.Instrs(f, func(in ssa.Instruction) {
+				v, ok := in.(ssa.Value)
+				if !ok || derived[v] {
+					return
+				}
+				switch x := in.(type) {
+				case *ssa.Extract:
+					if derived[x.Tuple] && x.Index == 0 {
+						derived[v], changed = true, true
+					}
+				case *ssa.Phi:
+					for _, e := range x.Edges {
+						if derived[e] {
+							derived[v], changed = true, true
+						}
+					}
+				case *ssa.TypeAssert:
+					if derived[x.X] {
+						derived[v], changed = true, true
+					}
+				case *ssa.MakeInterface:
+					if derived[x.X] {
+						derived[v], changed = true, true
+					}
+				case *ssa.UnOp:
+					// load of a field/slot into which a derived value was stored
+					if x.Op != token.MUL {
+						return
+					}
+					key := engine.AddrPath(x.X)
+					root := engine.AddrRoot(x.X)
+					engine.Instrs(f, func(i2 ssa.Instruction) {
+						if st, ok := i2.(*ssa.Store); ok && derived[st.Val] && engine.AddrRoot(st.Addr) == root && engine.AddrPath(st.Addr) == key && engine.ReachableAfter(st, x) {
+							derived[v], changed = true, true
+						}
+					})
+				}
+			})
+		}
+		o := ord{}
+		engine.Instrs(f, func(in ssa.Instruction) {
+			c, ok := in.(*ssa.Call)
+			if !ok || !c.Call.IsInvoke() || !derived[c.Call.Value] {
+				return
+			}
+			n++
+			r.CallSites++
+			m := c.Call.Method.Name()
+			where, bad := recursive[m]
+			r.Check(!bad, rule, o.next(fn(f)+"|"+m+" on a decoded subtree"), r.P.Pos(c.Pos()), "constant work: no implementation of "+m+" descends into sub-nodes without a memo guard",
+				"the recursive decoder calls "+m+"() on the subtree a recursive call returned, and "+where+" implements it by descending into its sub-node: every level re-walks the chain below it, so decoding is quadratic in a nesting depth the input controls (a crafted export of nested shared-prefix nodes does not decode promptly)")
+		})
+	}
+	if n < 2 {
+		r.Anchor(rule, fmt.Errorf("unresolved anchor: %d method calls on recursively decoded subtrees found", n))
+	}
 }
